@@ -459,7 +459,12 @@ def run_case(case):
                         got = os.read(stream.fileno(), max(1, step.get("n", 4)))
                     if got:
                         if bytes(model.fifo[model.held : model.held + len(got)]) != got:
-                            raise AssertionError("harness: external read does not match the model's pipe content")
+                            # another reader finds other bytes on the stream than were written to it and not yet read by the
+                            # Input: something discarded input (e.g. a flushing tcsetattr) - those bytes can never be returned
+                            res.viol("bytes_written_to_the_stream_vanished", expected_next=bytes(model.fifo[model.held : model.held + 8]).hex(),
+                                     found=got[:8].hex(), step=si, case=case)
+                            stop = True
+                            break
                         inp.unget_bytes(got)
                         model.held += len(got)
                         res.label("unget")
